@@ -133,6 +133,7 @@ type outerScope struct {
 }
 
 type Gen struct {
+	constructorRef  string
 	outerScopes     []outerScope
 	rootLoopSigs    []string
 	ownedCache      map[*ssa.Function]map[ssa.Value]bool
@@ -760,6 +761,12 @@ func (g *Gen) execAll() {
 		}
 	}
 	g.entry = st.clone()
+	g.constructorRef = ""
+	if g.spec != nil && g.spec.Options["constructor"] != "" && g.fn == g.rootFn && len(g.fn.Params) > 0 && g.fn.Signature.Recv() != nil {
+		if base, ok := g.paramVals[g.fn.Params[0].Name()].(PtrV); ok && base.Cell == nil {
+			g.constructorRef = base.Ref
+		}
+	}
 	if g.spec != nil {
 		for _, gd := range g.spec.Ghosts {
 			if gd.Init != nil {
